@@ -169,6 +169,14 @@ pub struct ClientCfg {
 }
 
 pub fn build_client(cfg: &ClientCfg, sink: RecSink, handler: Option<HandlerLog>) -> StatsdClient {
+    build_client_on(cfg, sink, handler)
+}
+
+/// The same on any sink - in particular directly on the library's own sink types (a client may look at what it is built on).
+pub fn build_client_on<S>(cfg: &ClientCfg, sink: S, handler: Option<HandlerLog>) -> StatsdClient
+where
+    S: MetricSink + Sync + Send + std::panic::RefUnwindSafe + 'static,
+{
     // a client without any option is built through the short constructor
     if cfg.default_tags.is_empty() && cfg.default_container.is_none() && cfg.earlier_containers.is_empty() && handler.is_none() {
         return StatsdClient::from_sink(&cfg.prefix_raw, sink);
